@@ -1,5 +1,6 @@
 import Driver.Base
 import WitnessVerif.Model.Feeder
+import WitnessVerif.Model.Omni
 /-
 `FD` records: one `feeder.FeedOnce` against a scripted (stub or real) witness.
 -/
@@ -63,6 +64,30 @@ def handleFD (st : St) (n : Nat) (toks : List String) : Result := Id.run do
     st := { st with nOK := st.nOK + 1 }
     outs := outs ++ [s!"OK {n}"]
   else st := { st with nDiv := st.nDiv + 1 }
+  -- the closed loop (Model/Omni.lean: feeder, adapter, witness and store models composed) against the real
+  -- assembly, for cycles without injected failures: calls, outcome and the witness's state afterwards
+  match toks[1]?.bind (fun sid => (st.sess.get? sid).map (fun s => (sid, s))), (get "pre").bind Opt.parse, (get "post").bind Opt.parse with
+  | some (sid, s), some pre, some post =>
+    if (get "witness").getD "" == "real" && (get "pattern").getD "" == "." && script.length == 1 then
+      let cfg := mkCfg st s false
+      match cfg.logs.head? with
+      | some l =>
+        let store : Wit.Store := match pre with | .val b => [(l.id, b)] | _ => []
+        let prove : Nat → Nat → Option (List Bytes) := fun _ _ => (script.head?.bind (·.proof))
+        let r := Omni.feedCycle cfg l store cp prove
+        let ocalls := ";".intercalate (r.1.1.map (callShow cp))
+        let oresult := match r.1.2 with
+          | some (.done (some b)) => "ok:" ++ hx b
+          | some (.done none) => "ok:-"
+          | _ => "err"
+        let opost : Opt := match r.2.get l.id with | some b => .val b | none => .absent
+        if ocalls != icalls || oresult != iresult || opost.show != post.show then
+          st := { st with nDiv := st.nDiv + 1 }
+          outs := outs ++ [s!"DIVERGE {n} FD field=closedloop model={ocalls.take 80}|{oresult.take 60}|{opost.show.take 60} impl={icalls.take 80}|{iresult.take 60}|{post.show.take 60}"]
+        else st := st.bump "feeder.closedloop.agree"
+      | none => pure ()
+    st := { st with sess := st.sess.insert sid { s with sg := [] } }
+  | _, _, _ => pure ()
   st := st.bump s!"feeder.{(get "witness").getD "?"}.{if iresult == "err" then "err" else "ok"}"
   -- monitors on the implementation's calls alone
   if hang != "0" then
